@@ -25,7 +25,7 @@ def graph_bounds(defs, und=None):
     e = (nm * (nm + 1) // 2 * dup + 2) if und else (nm * nm * dup + nm + 2)
     names = ["harness", "getInDegree", "getInDegrees", "getAdjacencyMatrix", "getReversedGraph", "getDirectedGraph", "getOutDegrees", "writeTextEdgeList", "writeBinaryEdgeList", "edge_walk"]
     it = "operator++#0&Undirected=%d,operator++=%d,begin=%d," % (nm * nm * dup + 2, nm + 2, nm + 2)
-    return it + ",".join("%s=%d" % (k, e) for k in names) + ",unordered_map=%d," % (defs["VERIF_KEY_MAX"] ** 2 + 2) + default_bound(defs)
+    return it + ",".join("%s=%d" % (k, max(e, nm * nm * dup + 3) if k == "harness" else e) for k in names) + ",unordered_map=%d," % (defs["VERIF_KEY_MAX"] ** 2 + 2) + default_bound(defs)
 
 
 def step(prop, src, tag, N, NM, LT, OP, OBS, DUP=1, opnames=DIR_OPS, **kw):
@@ -622,7 +622,7 @@ def dij_ob(prop, und, n, emax, fixs=None, **kw):
     if fixs is not None:
         defs["FIXS"] = fixs
     b = "verif_=%d,unordered_map=%d,findGeodesicsDijkstra&#0=%d,findGeodesicsDijkstra&#1=%d,default=%d" % (emax + 4, nm * nm + 2, emax + 4, nm + 2, max(nm + 3, emax + 4))
-    ob = {"id": "%s/%s/n%d-e%d/findGeodesicsDijkstra%s" % (prop, "uwg" if und else "dwg", n, emax, "" if fixs is None else "-s%d" % fixs), "src": "dijkstra.cpp", "defs": defs, "bounds": b, "no_validate": True}
+    ob = {"id": "%s/%s/n%d-e%d/findGeodesicsDijkstra%s" % (prop, "uwg" if und else "dwg", n, emax, "" if fixs is None else "-s%d" % fixs), "src": "dijkstra.cpp", "defs": defs, "bounds": b, "no_validate": True, "spec_heap": True}
     ob.update(kw)
     return ob
 
@@ -760,7 +760,7 @@ PROPS["C17"] = {"gen": c17,
 
 BL_NAMES = {0: "nolabel", 1: "u8", 2: "u16", 3: "int", 4: "u64", 5: "float", 6: "double"}
 BL_SIZE = {0: 0, 1: 1, 2: 2, 3: 4, 4: 8, 5: 4, 6: 8}
-BIN_Q = {0: "layout", 1: "roundtrip", 2: "records-any-order", 3: "truncated", 4: "open-failure", 5: "swapBytes"}
+BIN_Q = {0: "layout", 1: "roundtrip", 2: "records-any-order", 3: "truncated", 4: "open-failure", 5: "swapBytes", 6: "decode-any-index-bytes", 7: "encode-any-index"}
 
 
 def bin_ob(prop, und, bl, q, n=3, emaxw=2, recs=2, **kw):
@@ -769,7 +769,7 @@ def bin_ob(prop, und, bl, q, n=3, emaxw=2, recs=2, **kw):
     defs.update({"UND": und, "BL": bl, "Q": q, "EMAXW": emaxw, "RECS": recs, "VERIF_FILE_CAP": max(emaxw, recs) * rec + 1, "VERIF_LIST_CAP": max(n, recs) + 1})
     b = graph_bounds(defs) + ",loadBinaryEdgeList=%d,le_bytes=10" % (max(emaxw, recs) + 3)
     b = "harness=%d,file_set=%d,write=%d,read=%d,put_=%d," % (max(12, n * n + n + 2), defs["VERIF_FILE_CAP"] + 2, 10, 10, 10) + b
-    ob = {"id": "%s/%s/%s/%s%s" % (prop, "und" if und else "dir", BL_NAMES[bl], BIN_Q[q], "-n%d-e%d" % (n, emaxw) if q < 2 else ("-r%d" % recs if q in (2, 3) else "")), "src": "binio.cpp", "defs": defs, "bounds": b, "count_ub": True, "optional_reach": [""], "no_validate": q in (0, 1, 2, 3, 4) }
+    ob = {"id": "%s/%s/%s/%s%s" % (prop, "und" if und else "dir", BL_NAMES[bl], BIN_Q[q], "-n%d-e%d" % (n, emaxw) if q < 2 else ("-r%d" % recs if q in (2, 3, 6, 7) else "")), "src": "binio.cpp", "defs": defs, "bounds": b, "count_ub": True, "optional_reach": [""], "no_validate": q in (0, 1, 2, 3, 4, 6, 7) }
     ob.update(kw)
     return ob
 
@@ -786,6 +786,8 @@ def c14(tier):
             obs.append(bin_ob("C14", und, bl, 2, n=3, recs=2 if tier == "quick" else 3))
             if not und:
                 obs.append(bin_ob("C14", und, bl, 5))
+                obs.append(bin_ob("C14", und, bl, 6, n=1, recs=2 if tier == "quick" else 3))
+                obs.append(bin_ob("C14", und, bl, 7, n=1, recs=2 if tier == "quick" else 3))
         obs.append(bin_ob("C14", und, 3, 4))
         obs.append(bin_ob("C14", und, 0, 4))
     return obs
@@ -798,6 +800,10 @@ def c15_bin(tier):
             if tier == "quick" and und and bl not in (0, 3):
                 continue
             obs.append(bin_ob("C15", und, bl, 3, n=3, recs=2 if tier == "quick" else 3))
+            if not und:
+                o = bin_ob("C15", und, bl, 6, n=1, recs=2 if tier == "quick" else 3)
+                o["id"] += "-cut"; o["defs"]["CUT"] = 1
+                obs.append(o)
     return obs
 
 
